@@ -138,3 +138,67 @@ DRIVERS = [
            rule='argument permutations of 4 splits x 5 patterns; permutations of the contents inside the range; SUMPRODUCT over every pattern against a numeric range and over differently shaped ranges (#VALUE!); ranges of 100..1000 cells',
            bound='see rule'),
 ]
+
+
+# ---- "exactly the addressed values" after the inputs have changed: ranges holding COMPUTED cells -------------------------------------------
+HOPS = {
+    # the cells of the block D1:E3 are formulas one, two and three hops away from the inputs A1 / A2; plus a number, a text and a blank
+    'block': {'A1': 2, 'A2': 10, 'B1': '=A1*2', 'B2': '=B1+A2', 'C1': '=B2+1',
+              'D1': '=A1+1', 'D2': '=B1+1', 'D3': '=B2+1', 'E1': '=C1*2', 'E2': 7, 'E3': 'txt', 'F1': '=D1'},
+}
+AGG = ['SUM', 'AVERAGE', 'MIN', 'MAX', 'COUNT', 'COUNTA']
+
+
+def cases_after_change(tier, seed):
+    for split in (['D1:E3'], ['D1:D3', 'E1:E3'], ['D1:E1', 'D2:E3'], ['D1:E2', 'D3:E3']):
+        for sets in ([('A1', 5)], [('A2', -3)], [('A1', 5), ('A2', 0.5)], [('A1', 5), ('A1', 2)], [('E2', 100)], [('E3', 4)]):
+            for first in ('aggregates', 'cells', 'nothing'):
+                yield dict(kind='after-change', split=split, sets=[list(x) for x in sets], first=first)
+
+
+def oracle_after_change(c):
+    import xlcalculator
+    from drivers.common import build_model, observe
+    cells = dict(HOPS['block'])
+    args = ','.join(c['split'])
+    for k, f in enumerate(AGG):
+        cells[f'H{k + 1}'] = f'={f}({args})'
+    cells['H7'] = '=SUMPRODUCT(D1:D3,D1:D3)'
+    model = build_model({'Sheet1!' + k: v for k, v in cells.items()})
+    ev = xlcalculator.Evaluator(model)
+    targets = [f'Sheet1!H{k + 1}' for k in range(7)]
+    block = ['D1', 'E1', 'D2', 'E2', 'D3', 'E3']
+    try:
+        if c['first'] == 'aggregates':
+            for t in targets:
+                ev.evaluate(t)
+        elif c['first'] == 'cells':
+            for a in block:
+                ev.evaluate('Sheet1!' + a)
+        for a, v in c['sets']:
+            ev.set_cell_value('Sheet1!' + a, v)
+        got = {t: observe(ev.evaluate(t)) for t in targets}
+        fresh = xlcalculator.Evaluator(model)                                  # the addressed values, read one by one
+        vals = []
+        for a in block:
+            o = observe(fresh.evaluate('Sheet1!' + a))
+            vals.append(o[1] if o[0] == 'num' else (None if o[0] == 'blank' else 'txt'))
+    except Exception as ex:     # noqa
+        return False, 'values', f'raise {type(ex).__name__}: {str(ex)[:200]}'
+    ref = reference(vals)
+    d = [v for v in (vals[0], vals[2], vals[4])]
+    ref7 = ('num', sum(x * x for x in d if isinstance(x, (int, float))))
+    for k, f in enumerate(AGG):
+        if f in ref and not _close(got[targets[k]], ref[f]):
+            return False, (f'{f}({args}) == fold of the current values {vals}', ref[f]), got[targets[k]]
+    if not _close(got[targets[6]], ref7):
+        return False, ('SUMPRODUCT(D1:D3,D1:D3)', ref7), got[targets[6]]
+    return True, 'aggregates follow the current values of computed cells in their ranges', 'ok'
+
+
+DRIVERS.append(Driver('C14/B4.after-change', cases_after_change, oracle_after_change, nchunks=4, exhaustive=True,
+                      rule='a 3x2 block of cells computed one, two and three formulas away from two inputs (plus a number, a text, a blank), aggregated whole and in '
+                           '3 splits: evaluate the aggregates / the cells / nothing, change inputs (1-2 set_cell_value calls, also back to the old value, also '
+                           'cells of the block itself), evaluate again: every aggregate == the reference fold of the values the cells have NOW, read one by one '
+                           'by a fresh evaluator',
+                      bound='one block, 4 splits x 6 change sets x 3 first steps'))
